@@ -38,14 +38,59 @@ naryq = [c for c in nary if c[1] <= 2 or c[2] in (0, 2, 4, 6, 8, 1 << (c[1] - 1)
 ob("bit.nary", "VerifC05XBitN", naryq, nary,
    "logand logior logxor logeqv with 0..4 arguments; every argument a fully symbolic fixnum or (mask bit set) a symbolic 192-bit bignum, in every order (in particular negative fixnums followed by a bignum: the switch from the machine-word accumulator to math/big); oracle: fold of the truth table over the operand limbs starting from the operation's identity; logeqv only with fixnum arguments here (bignum path: grid)",
    carves=["C05-bitop-noncanonical-bignum"])
-ob("bit.fix1", "VerifC05XBit1", [(f,) for f in range(5)], [(f,) for f in range(5)],
-   "lognot, logcount, integer-length of a fully symbolic fixnum; logbitp of a symbolic index 0..200 and a symbolic fixnum; logtest of two symbolic fixnums; oracle written bit by bit",
+lc = [(bg, pos) for bg in range(4) for pos in (0, 13, 29, 45, 58)]
+ob("bit.logcount", "VerifC05XLogcount", [(1, 29), (2, 58), (3, 58)], lc,
+   "logcount of a fixnum: four symbolic bits in a window at bit 0/13/29/45/58 over a background pattern (0, -1, 0x5a5a.., 2^63 pattern), i.e. both signs; slip's loop branches on every bit, so the engine enumerates the 16 window values (bounded enumeration executed by the engine); oracle: branch-free population count of x or its complement")
+ob("bit.fix1", "VerifC05XBit1", [(f,) for f in (0, 2, 3, 4)], [(f,) for f in (0, 2, 3, 4)],
+   "lognot, integer-length of a fully symbolic fixnum; logbitp of a symbolic index 0..200 and a symbolic fixnum; logtest of two symbolic fixnums; oracle written bit by bit",
    carves=["C05-logbitp-fixnum-index-beyond-63"])
 gridc = [(fn, i) for fn in range(7) for i in range(GRID)]
 gridq = [(fn, i) for fn in range(7) for i in (0, 2, 12, 13, 14, 15, 16, 18, 20, 21, 25, 27, 30)]
 ob("bit.grid", "VerifC05XBitGrid", gridq, gridc,
    "logcount, integer-length, lognot, logbitp (index from 0 1 7 8 31 63 64 65 70 127 128 200), logtest, logeqv, boole-eqv on the boundary grid of the property extended by -2^63-1, +-(10^20+3), +-(2^100+12345), 2^128-1, -2^128 and a few small values (35 values; binary functions: first operand from the case, second from a concrete choice over the whole grid, pairs of two fixnums left to the symbolic obligations); oracle: bit i of x is floor(x/2^i) mod 2 computed with Quo/Rem on -x-1 for negatives." + ENUM,
    carves=["C05-bitops-negative-bignum-magnitude", "C05-operand-altered-in-place", "C05-logeqv-bignum", "C05-logbitp-fixnum-index-beyond-63"])
+
+# ---- ratios ----
+# operand kinds: 0 fixnum(sym) 1 bignum(sym) 2 ratio sym-numerator/den 3 concrete integer 4 concrete ratio n/den
+# den code: >=1000 -> small value den-1000, else grid index (negative: negated grid value)
+S = lambda v: 1000 + v
+G63, G64, G64P1, G32, G62 = 13, 15, 17, 7, 9   # grid indices of 2^63 2^64 2^64+1 2^32 2^62
+RATNOTE = " Ratio operands have a symbolic numerator of unbounded magnitude over a concrete denominator taken from the case parameters (small values and the boundary grid), in lowest terms (big.Rat model with symbolic numerator: engine/x_c05.go forks over the divisors of the denominator); integer operands are fully symbolic fixnums / unbounded bignums; for / the divisor is concrete from the parameters (grid values and small ratios), the dividend symbolic; * bounds both symbolic values by 2^bits (last parameter) because the product of two symbolic values is non-linear. Oracle: fractions as integer pairs compared by cross multiplication; lowest terms = no prime factor of the denominator divides the numerator."
+ra = []
+for op in (0, 1):
+    for (k0, d0, k1, d1) in ((2, S(2), 2, S(3)), (2, S(6), 2, S(4)), (2, S(3), 0, S(0)), (0, S(0), 2, S(12)), (2, S(2), 1, S(0)), (1, S(0), 2, S(6)),
+                             (2, G64, 2, G64), (2, G63, 0, S(0)), (2, G64P1, 1, S(0)), (2, G32, 2, G64), (2, S(7), 2, G62)):
+        ra.append((op, k0, d0, k1, d1, 0, 0))
+for (k0, d0, k1, d1, bits) in ((2, S(2), 2, S(3), 8), (2, S(6), 2, S(4), 6), (2, S(4), 0, S(0), 8), (1, S(0), 2, S(6), 8), (2, G64, 2, S(3), 6), (0, S(0), 2, G63, 8)):
+    ra.append((2, k0, d0, k1, d1, 0, bits))
+# division: symbolic dividend, concrete divisor
+for (k0, d0) in ((0, S(0)), (1, S(0)), (2, S(3)), (2, G64)):
+    for (k1, d1, n1) in ((3, S(1), 0), (3, -1, 0), (3, S(2), 0), (3, S(6), 0), (3, -3, 0), (3, G63, 0), (3, -G63, 0), (3, G64, 0), (3, G64P1, 0), (3, S(0), 0),
+                         (4, S(3), 2), (4, S(4), -6), (4, G64, 3), (4, S(3), 0)):
+        ra.append((3, k0, d0, k1, d1, n1, 0))
+raq = [c for i, c in enumerate(ra) if (c[0] < 3 and i % 3 == 0) or (c[0] == 3 and (c[1], c[4]) in ((0, -1), (0, S(6)), (0, G63), (1, G64), (1, S(2)), (2, S(3)), (2, S(2))) )]
+ob("rat.arith", "VerifC05XRatArith", raq, ra,
+   "+ - * / with at least one ratio operand, and integer/integer division (which yields a ratio): exact value, lowest terms with positive denominator, integer-valued results are integers, integers canonical, operands unchanged." + RATNOTE,
+   carves=["C05-divide-alters-ratio-operand", "C05-fixnum-min-wraps", "C05-ratio-result-integer-valued", "C05-noncanonical-bignum-quotient"], int_mode=True)
+rc = []
+for (k0, d0, k1, d1, n1) in ((2, S(2), 2, S(3), 0), (2, S(6), 2, S(6), 0), (2, S(3), 0, S(0), 0), (0, S(0), 2, S(4), 0), (2, S(2), 1, S(0), 0), (1, S(0), 2, S(5), 0),
+                             (2, G64, 2, G64, 0), (2, G63, 0, S(0), 0), (0, S(0), 2, G64P1, 0), (2, G64P1, 1, S(0), 0), (2, G32, 2, G64, 0),
+                             (2, S(3), 4, S(3), 1), (0, S(0), 4, G64, -3), (1, S(0), 4, S(2), 36893488147419103231 % (1 << 62))):
+    rc.append((k0, d0, k1, d1, n1))
+ob("rat.compare", "VerifC05XRatCompare", rc[0:3] + rc[4:5] + rc[6:8] + rc[12:13], rc,
+   "= /= < <= > >= and max/min on ratio x ratio, ratio x fixnum, ratio x bignum pairs in both orders: exactly one of < = > holds, every comparison agrees with the exact values, max/min return the right value, operands unchanged." + RATNOTE, int_mode=True)
+ru = []
+for fn in range(9):
+    for (k, d) in ((2, S(2)), (2, S(6)), (2, G64), (2, G63), (2, G64P1)):
+        ru.append((fn, k, d, 0))
+for fn in (7, 8):
+    ru += [(fn, 0, S(0), 0), (fn, 1, S(0), 0)]
+for (k, d, n) in ((3, S(1), 0), (3, -1, 0), (3, S(2), 0), (3, -12, 0), (3, G64, 0), (3, -G64, 0), (3, S(0), 0), (4, S(3), 2), (4, S(3), -2), (4, G64, 3), (4, S(6), -9)):
+    ru.append((9, k, d, n))
+ruq = [c for i, c in enumerate(ru) if (c[0] < 9 and c[2] in (S(6), G64)) or (c[0] in (7, 8) and c[1] < 2) or (c[0] == 9 and i % 2 == 0)]
+ob("rat.unary", "VerifC05XRatUnary", ruq, ru,
+   "zerop plusp minusp abs - 1+ 1- numerator denominator on a ratio with symbolic numerator (denominators 2, 6, 2^63, 2^64, 2^64+1), numerator/denominator of symbolic integers, and the reciprocal (/ x) of concrete integers and ratios from the parameters (a symbolic numerator cannot become a denominator in the model: that part is bounded enumeration executed by the engine); exact, canonical, operand unchanged." + RATNOTE,
+   carves=["C05-divide-alters-ratio-operand"], int_mode=True)
 
 txt = json.dumps(base, indent=1)
 assert txt.endswith("\n]")
